@@ -27,8 +27,9 @@ Open Scope Z_scope.
 Definition ident := string.
 Definition bit := (ident * nat)%type.
 
+(* index first and short-circuit: cheaper under call-by-value evaluation *)
 Definition bit_eqb (a b : bit) : bool :=
-  String.eqb (fst a) (fst b) && Nat.eqb (snd a) (snd b).
+  if Nat.eqb (snd a) (snd b) then String.eqb (fst a) (fst b) else false.
 
 Inductive vdecl := DBool | DInt (h : hint).
 Definition tbl := list (ident * vdecl).
